@@ -26,8 +26,9 @@ from mc.enumprop import Enum, PartReport, part_of, pmap
 
 LEVEL = 'model_checking'
 
-TAB = {'D': 'Depts', 'T': 'Teams', 'P': 'People', 'O': 'Other'}
-TORDER = ['D', 'T', 'P', 'O']
+TAB = {'D': 'Depts', 'T': 'Teams', 'P': 'People', 'O': 'Other', 'S': 'People_summary_team'}
+TORDER = ['D', 'T', 'P', 'O']         # tables made by AddTable, which get renamed
+ALLT = TORDER + ['S']                 # S: the summary table of People by team (follows renames)
 
 # data columns: (key, type template)
 DATA_COLS = {
@@ -164,6 +165,8 @@ FORMULAS = [
     ('O', 'f_who2', 'chain', '$@O.who@.@P.team@.@T.title@'),
     ('O', 'f_prev', 'prevnext', 'PREVIOUS(rec, group_by="@O.team@", order_by="@O.age@").@O.name@'),
     ('O', 'f_lk', 'lookup', '@O@.lookupOne(@O.age@=$@O.age@).@O.team@'),
+    ('O', 'f_both', 'chain',
+     '$@O.name@ + "/" + $@O.who@.@P.name@ + "/" + str($@O.who@.@P.age@ + $@O.age@)'),
 ]
 # helper columns made by SetDisplayFormula / AddEmptyRule and a trigger formula in a data column
 SPECIAL = [
@@ -171,12 +174,34 @@ SPECIAL = [
     ('P', 'gristHelper_ConditionalRule', 'helper', '$@P.age@ > 25'),
     ('P', 'nick', 'trigger', '$@P.name@.upper() + str(rec.@P.age@)'),
 ]
-FAMILY = {(h, c): fam for (h, c, fam) in [f[:3] for f in FORMULAS + SPECIAL]}
+# formulas of / about the summary table of People by team (its id and its group-by column follow
+# the renames of People and People.team)
+SUMMARY_FORMULAS = [
+    ('S', 's_sum', 'summary', 'SUM($group.@P.age@)'),
+    ('S', 's_names', 'summary', 'sorted($group.@P.name@)'),
+    ('S', 's_title', 'summary', '$@S.team@.@T.title@ + str($count)'),
+    ('S', 's_lk', 'summary', 'len(@P@.lookupRecords(@P.team@=$@S.team@))'),
+    ('S', 's_max', 'reflist-comprehension', 'MAX(r.@P.age@ for r in $group)'),
+    ('P', 'f_sumlk', 'summary',
+     '@S@.lookupOne(@S.team@=$@P.team@).count + @S@.lookupOne(@S.team@=rec.@P.team@).@S.s_sum@'),
+]
+# columns CreateViewSection makes by itself: the group-by column and the SUM column of a numeric
+# source column carry the id of their source column (and follow its renames)
+SUMMARY_AUTO = [
+    ('S', 'team', 'data', '', 'Ref:@T@'),
+    ('S', 'group', 'summary', 'table.getSummarySourceGroup(rec)', 'RefList:@P@'),
+    ('S', 'count', 'summary', 'len($group)', 'Int'),
+    ('S', 'age', 'summary', 'SUM($group.@P.age@)', 'Int'),
+]
+SUMMARY_MIRRORS = ['team', 'age']
+FAMILY = {(h, c): fam for (h, c, fam) in [
+    f[:3] for f in FORMULAS + SPECIAL + SUMMARY_FORMULAS + SUMMARY_AUTO]}
 
 # entities that get renamed: every data column, the formula columns other formulas mention, tables
 COL_ENTITIES = [(t, c) for t in TORDER for (c, _) in DATA_COLS[t]] + [
     ('P', 'f_dollar'), ('P', 'f_bossref'), ('P', 'f_anyref')]
 TAB_ENTITIES = [(t, None) for t in TORDER]
+BUSY = [('P', 'name'), ('P', 'age'), ('P', 'team'), ('T', 'title'), ('P', None), ('T', None)]
 
 MARK = re.compile(r'@([A-Z])(?:\.(\w+))?@')
 
@@ -280,7 +305,24 @@ class State(object):
     self.cols = {k: k[1] for k in base['colref']}         # (t, c) -> current id
     self.templates = dict(base['templates'])              # (t, c) -> formula template
     self.types = dict(base['types'])                      # (t, c) -> type template
+    self.family = dict(FAMILY)                            # (t, c) -> family of its template
+    self.poisoned = set()       # formulas already reported wrong: not checked again in later steps
     self.untracked = {t: set(v) for t, v in base['untracked'].items()}   # t -> other column ids
+
+  def set_table(self, t, new):
+    self.tables[t] = new
+    self._derive()
+
+  def set_col(self, t, c, new):
+    self.cols[(t, c)] = new
+    self._derive()
+
+  def _derive(self):
+    # summary.py: group-by columns carry the id of their source column, and the summary table is
+    # named <source>_summary_<group-by ids>
+    for c in SUMMARY_MIRRORS:
+      self.cols[('S', c)] = self.cols[('P', c)]
+    self.tables['S'] = '%s_summary_%s' % (self.tables['P'], self.cols[('P', 'team')])
 
   def render(self, template):
     def sub(m):
@@ -317,9 +359,14 @@ def base():
   doc.apply([["ModifyColumn", "People", "gristHelper_ConditionalRule", {"formula": "$age > 25"}]])
   doc.apply([["UpdateRecord", "_grist_Tables_column", refs[('P', 'nick')],
               {"recalcDeps": ["L", refs[('P', 'name')]]}]])
+  tabs = doc.fetch('_grist_Tables')
+  ptab = [r for r, tid in zip(tabs[2], tabs[3]['tableId']) if tid == 'People'][0]
+  doc.apply([["CreateViewSection", ptab, 0, "record", [refs[('P', 'team')]], None]])
+  doc.apply([["AddColumn", TAB[f[0]], f[1], {"type": "Any", "isFormula": True, "formula": rend(f[3])}]
+             for f in SUMMARY_FORMULAS])
   refs = _col_refs(doc)
-  templates, types, untracked = {}, {}, {t: set() for t in TORDER}
-  for f in FORMULAS + SPECIAL:
+  templates, types, untracked = {}, {}, {t: set() for t in ALLT}
+  for f in FORMULAS + SPECIAL + SUMMARY_FORMULAS + SUMMARY_AUTO:
     templates[(f[0], f[1])] = f[3]
     types[(f[0], f[1])] = f[4] if len(f) > 4 else None
   for t in TORDER:
@@ -334,8 +381,8 @@ def base():
       untracked[t].add(c)
   assert set(colref) == set(templates), set(templates) - set(colref)
   tabs = doc.fetch('_grist_Tables')
-  tabref = {t: r for t in TORDER for r, tid in zip(tabs[2], tabs[3]['tableId']) if tid == TAB[t]}
-  rawsec = {t: rs for t in TORDER for r, rs in zip(tabs[2], tabs[3]['rawViewSectionRef'])
+  tabref = {t: r for t in ALLT for r, tid in zip(tabs[2], tabs[3]['tableId']) if tid == TAB[t]}
+  rawsec = {t: rs for t in ALLT for r, rs in zip(tabs[2], tabs[3]['rawViewSectionRef'])
             if r == tabref[t]}
   _BASE.update(snap=doc.snapshot(), colref=colref, tabref=tabref, rawsec=rawsec,
                templates=templates, types=types, untracked=untracked)
@@ -381,7 +428,7 @@ def check_meta(doc, st, before_rows):
   out = []
   tabs = doc.fetch('_grist_Tables')
   tid = dict(zip(tabs[2], tabs[3]['tableId']))
-  for t in TORDER:
+  for t in ALLT:
     if tid.get(b['tabref'][t]) != st.tables[t]:
       out.append(('C16/new-id/table', "table %s: metadata tableId %r, expected %r" % (
           TAB[t], tid.get(b['tabref'][t]), st.tables[t]), None))
@@ -398,12 +445,12 @@ def check_meta(doc, st, before_rows):
             out.append(('C16/unrelated-column-changed/' + f, "column record %d (%s) %s: %r -> %r" % (
                 r, row['colId'], f, before_rows[r][f], row[f]), None))
       continue
-    fam = FAMILY.get(k, 'data')
+    fam = st.family.get(k, 'data')
     if row['colId'] != st.cols[k]:
       out.append(('C16/new-id/column', "column %s.%s: metadata colId %r, expected %r" % (
           TAB[k[0]], k[1], row['colId'], st.cols[k]), k))
     exp = st.render(st.templates[k])
-    if row['formula'] != exp:
+    if row['formula'] != exp and k not in st.poisoned:
       old = before_rows[r]['formula'] if before_rows else None
       kind = ('missed' if row['formula'] == old else 'spurious' if exp == old else 'wrong')
       out.append(('C16/text/%s/%s' % (kind, fam),
@@ -446,7 +493,7 @@ def map_dump(dump, tmap, cmap):
 def family_of_colid(st, tid, colid):
   for (t, c), cur in st.cols.items():
     if st.tables[t] == tid and cur == colid:
-      return FAMILY.get((t, c), 'data'), (t, c)
+      return st.family.get((t, c), 'data'), (t, c)
   return 'untracked', None
 
 
@@ -469,36 +516,69 @@ def compare_dumps(kind, exp, got, st, skip):
 # one rename step
 # ---------------------------------------------------------------------------------------------
 
+def col_taken(st, t, c):
+  taken = st.col_ids(t) | {'id'}
+  if t == 'P':
+    taken |= st.col_ids('S')        # ids of summary-table columns are avoided in the source table
+  return taken - {st.cols[(t, c)]}  # ... but never the column's own current id
+
+
+def next_entity(t, c):
+  if c is None:
+    return TORDER[(TORDER.index(t) + 1) % len(TORDER)], None
+  keys = [k for (k, _) in DATA_COLS[t]]
+  return t, keys[(keys.index(c) + 1) % len(keys)]
+
+
 def plan_step(st, step):
-  """step = [path, t, c or None, target label] -> (bundle, requested, expected id, position of
-  the action whose return value is the new id or None)."""
+  """step = [path, t, c or None, target label] -> (bundle, requested, [(entity, expected id)],
+  position of the action whose return value is the new id or None)."""
   b = _BASE
   path, t, c, label = step
+  if path == 'bulk-two':
+    # two renames in one BulkUpdateRecord of the metadata table: this entity and the next one
+    t2, c2 = next_entity(t, c)
+    cur = (lambda tt, cc: st.tables[tt] if cc is None else st.cols[(tt, cc)])
+    req = {'fresh': ('zz_new', 'zz_other'), 'same-target': ('zz_new', 'zz_new'),
+           'swap': (cur(t2, c2), cur(t, c))}[label]
+    if c is None:
+      req = tuple(r[0].upper() + r[1:] for r in req)
+      taken1 = {v for k, v in st.tables.items() if k != t}
+      e1 = disambiguate(req[0], taken1)
+      e2 = disambiguate(req[1], {v for k, v in st.tables.items() if k != t2} | {e1})
+      bundle = [["BulkUpdateRecord", "_grist_Tables", [b['tabref'][t], b['tabref'][t2]],
+                 {"tableId": list(req)}]]
+    else:
+      e1 = disambiguate(req[0], col_taken(st, t, c))
+      e2 = disambiguate(req[1], col_taken(st, t2, c2) | {e1})
+      bundle = [["BulkUpdateRecord", "_grist_Tables_column",
+                 [b['colref'][(t, c)], b['colref'][(t2, c2)]], {"colId": list(req)}]]
+    return bundle, list(req), [((t, c), e1), ((t2, c2), e2)], None
   if c is None:
     requested, san = tab_target(st, t, label)
     taken = {v for k, v in st.tables.items() if k != t}
-    expected = disambiguate(san, taken)
+    renames = [((t, None), disambiguate(san, taken))]
     if path == 'RenameTable':
-      return [["RenameTable", st.tables[t], requested]], requested, expected, 0
+      return [["RenameTable", st.tables[t], requested]], requested, renames, 0
     if path == 'tableId':
       return [["UpdateRecord", "_grist_Tables", b['tabref'][t], {"tableId": requested}]], \
-          requested, expected, None
+          requested, renames, None
     if path == 'raw-title':
       return [["UpdateRecord", "_grist_Views_section", b['rawsec'][t], {"title": requested}]], \
-          requested, expected, None
+          requested, renames, None
     raise ValueError(path)
   requested, san = col_target(st, t, c, label)
-  taken = (st.col_ids(t) | {'id'}) - {st.cols[(t, c)]}
-  expected = first_free_letter(taken) if san is None else disambiguate(san, taken)
+  taken = col_taken(st, t, c)
+  renames = [((t, c), first_free_letter(taken) if san is None else disambiguate(san, taken))]
   ref = b['colref'][(t, c)]
   if path == 'RenameColumn':
-    return [["RenameColumn", st.tables[t], st.cols[(t, c)], requested]], requested, expected, 0
+    return [["RenameColumn", st.tables[t], st.cols[(t, c)], requested]], requested, renames, 0
   vals = {'colId': {"colId": requested}, 'bulk-colId': {"colId": [requested]},
           'label': {"label": requested},
           'label-retie': {"label": requested, "untieColIdFromLabel": False}}[path]
   if path == 'bulk-colId':
-    return [["BulkUpdateRecord", "_grist_Tables_column", [ref], vals]], requested, expected, None
-  return [["UpdateRecord", "_grist_Tables_column", ref, vals]], requested, expected, None
+    return [["BulkUpdateRecord", "_grist_Tables_column", [ref], vals]], requested, renames, None
+  return [["UpdateRecord", "_grist_Tables_column", ref, vals]], requested, renames, None
 
 
 def do_step(doc, st, step, fails, pre_bundle=None, twin=None):
@@ -509,34 +589,35 @@ def do_step(doc, st, step, fails, pre_bundle=None, twin=None):
   Returns True if some formula text changed.
   """
   path, t, c, label = step
-  bundle, requested, expected, retpos = plan_step(st, step)
+  bundle, requested, renames, retpos = plan_step(st, step)
   what = "%s %s.%s -> %r" % (path, TAB[t], c, requested) if c else "%s %s -> %r" % (path, TAB[t], requested)
   before_rows = meta_rows(twin or doc)
   before = user_dump(twin or doc)
-  told = st.tables[t]
+  old_tables, old_cols = dict(st.tables), dict(st.cols)
   g, exc = doc.try_apply((pre_bundle or []) + bundle)
   if exc is not None:
     fails.append(('C16/raised/%s/%s' % (type(exc).__name__, path),
                   "%s raised %s" % (what, H.exc_text(exc))))
     return False
   # advance the model
-  if c is None:
-    st.tables[t] = expected
-    tmap, cmap = {told: expected}, {}
-  else:
-    cold = st.cols[(t, c)]
-    st.cols[(t, c)] = expected
-    tmap, cmap = {}, {(told, cold): expected}
+  for (tt, cc), expected in renames:
+    if cc is None:
+      st.set_table(tt, expected)
+    else:
+      st.set_col(tt, cc, expected)
+  tmap = {old: st.tables[k] for k, old in old_tables.items() if st.tables[k] != old}
+  cmap = {(old_tables[k[0]], old): st.cols[k] for k, old in old_cols.items() if st.cols[k] != old}
   if retpos is not None:
     ret = g.retValues[len(pre_bundle or []) + retpos]
-    if ret != expected:
-      fails.append(('C16/ret-value/' + path, "%s returned %r, expected %r" % (what, ret, expected)))
+    if ret != renames[0][1]:
+      fails.append(('C16/ret-value/' + path, "%s returned %r, expected %r" % (
+          what, ret, renames[0][1])))
   bad = check_meta(doc, st, before_rows)
-  skip = set()
   for key, msg, k in bad:
     fails.append((key, "%s: %s" % (what, msg)))
     if k is not None:
-      skip.add(k)
+      st.poisoned.add(k)
+  skip = st.poisoned
   after = user_dump(doc)
   exp = map_dump(before, tmap, cmap)
   for key, msg in compare_dumps('value-changed', exp, after, st, skip):
@@ -559,27 +640,32 @@ def do_step(doc, st, step, fails, pre_bundle=None, twin=None):
 # formula edits (thorough): histories "edit formulas, then rename"
 # ---------------------------------------------------------------------------------------------
 
+EDITABLE = {(f[0], f[1]) for f in FORMULAS + SUMMARY_FORMULAS}
+
+
 def editable(k, tpl):
-  return (k in FAMILY and FAMILY[k] not in ('helper', 'trigger') and k[1] != 'f_syntax'
-          and not tpl[:1].isspace())
+  return k in EDITABLE and k[1] != 'f_syntax' and not tpl[:1].isspace()
 
 
 def edit_actions(st, kind):
-  """Returns (actions, new templates) for an edit of many formulas at once."""
+  """Returns (actions, {column: (new template, its family)}) for an edit of many formulas."""
   new = {}
   if kind in ('pad', 'pad-same-bundle'):
-    for k, tpl in st.templates.items():
-      if editable(k, tpl):
-        new[k] = 'pad = "age name People"  # $age\n' + tpl
+    # every other editable formula gets a first line (shifts all offsets); the rest stay as is
+    for i, k in enumerate(sorted(k for k, tpl in st.templates.items() if editable(k, tpl))):
+      if i % 2 == 0:
+        new[k] = ('pad = "age name People"  # $age\n' + st.templates[k], st.family[k])
   elif kind == 'rotate':
+    # every plain People formula takes the text of the next one
     ring = [f for f in FORMULAS if f[0] == 'P' and len(f) == 4 and editable((f[0], f[1]), f[3])
             and ('P', f[1]) not in COL_ENTITIES and f[1] not in ('f_fcol', 'f_viafref', 'f_viaany')]
     for i, f in enumerate(ring):
-      new[('P', f[1])] = ring[(i + 1) % len(ring)][3]
+      nxt = ring[(i + 1) % len(ring)]
+      new[('P', f[1])] = (nxt[3], nxt[2])
   else:
     raise ValueError(kind)
   acts = [["ModifyColumn", st.tables[k[0]], st.cols[k], {"formula": st.render(tpl)}]
-          for k, tpl in sorted(new.items())]
+          for k, (tpl, _) in sorted(new.items())]
   return acts, new
 
 
@@ -605,15 +691,17 @@ def run_case(case):
       pre = acts
     else:
       doc.apply(acts)
-    st.templates.update(new)
+    st.templates.update({k: v[0] for k, v in new.items()})
+    st.family.update({k: v[1] for k, v in new.items()})
   nontrivial = False
   for i, step in enumerate(case['steps']):
     n = len(fails)
     changed = do_step(doc, st, step, fails, pre_bundle=pre if i == 0 else None,
                       twin=twin if i == 0 else None)
     nontrivial = nontrivial or changed
-    if len(fails) > n:
-      break           # the model no longer describes the document
+    if any(not k.startswith(('C16/text/', 'C16/value-changed/', 'C16/fresh-recompute-differs/'))
+           for k, _ in fails[n:]):
+      break           # ids or schema went wrong: the model no longer describes the document
   return fails, nontrivial, doc.canon()
 
 
@@ -629,15 +717,22 @@ def single_steps(tier):
     for p in TAB_PATHS_QUICK + (TAB_PATHS_MORE if more else []):
       for lab in TAB_TARGETS_QUICK + (TAB_TARGETS_MORE if more and p in TAB_PATHS_QUICK else []):
         out.append([p, t, None, lab])
+  # two renames in one metadata update (this entity and the next one of its table / the next table)
+  two = [(t, c) for t in TORDER for (c, _) in DATA_COLS[t]] + TAB_ENTITIES
+  for (t, c) in (two if more else BUSY):
+    for lab in (('fresh', 'same-target', 'swap') if more else ('swap',)):
+      out.append(['bulk-two', t, c, lab])
   return out
 
 
 def pair_steps():
-  """first rename (every entity x {fresh, collide}) then a second one: every entity to a fresh
-  name, the same entity back to its original id, and columns of the same table to a foreign name
-  through the metadata path."""
-  firsts = [['RenameColumn', t, c, lab] for (t, c) in COL_ENTITIES for lab in ('fresh', 'collide')]
-  firsts += [['RenameTable', t, None, lab] for (t, _) in TAB_ENTITIES for lab in ('fresh', 'collide')]
+  """first rename (every entity to a fresh name; the most mentioned ones also to a colliding
+  name) then a second one: every entity to a fresh name, the same entity back to its original
+  id, and columns of the same table to a foreign name through the metadata path."""
+  firsts = [['RenameColumn', t, c, lab] for (t, c) in COL_ENTITIES for lab in ('fresh', 'collide')
+            if lab == 'fresh' or (t, c) in BUSY]
+  firsts += [['RenameTable', t, None, lab] for (t, _) in TAB_ENTITIES for lab in ('fresh', 'collide')
+             if lab == 'fresh' or (t, None) in BUSY]
   out = []
   for a in firsts:
     for (t, c) in COL_ENTITIES:
@@ -660,7 +755,8 @@ def all_cases(tier):
   if tier == 'thorough':
     cases += [{'edit': None, 'steps': p} for p in pair_steps()]
     for edit in ('pad', 'rotate', 'pad-same-bundle'):
-      cases += [{'edit': edit, 'steps': [s]} for s in single_steps('quick')]
+      cases += [{'edit': edit, 'steps': [[('RenameColumn' if c else 'RenameTable'), t, c, lab]]}
+                for (t, c) in COL_ENTITIES + TAB_ENTITIES for lab in ('fresh', 'sanitise')]
   return cases
 
 
@@ -693,14 +789,20 @@ def work(chunk):
 def run(tier, report):
   base()
   cases = all_cases(tier)
+  nform = len(FORMULAS) + len(SPECIAL) + len(SUMMARY_FORMULAS) + 3
   E = Enum(report, rule=(
-      'one document with %d formula columns (grammar of reference forms + look-alikes) in 4 tables; '
-      'every rename path x every target shape x every renamed entity (%d columns, %d tables), each '
-      'from the same snapshot; thorough adds all listed pairs of renames in sequence and the quick '
-      'rename set after three kinds of formula edits; non-trivial = the rename rewrote at least '
-      'one formula; oracle: values unchanged keyed through the rename, formula texts == rendered '
-      'templates, fresh engine agrees, ids == reference' % (
-          len(FORMULAS) + len(SPECIAL), len(COL_ENTITIES), len(TAB_ENTITIES))))
+      'one document: %d formula columns (grammar of reference forms + look-alikes that must not '
+      'change) in 4 tables and a summary table; every entity (%d columns, %d tables) x every '
+      'rename path (quick: RenameColumn, UpdateRecord colId, UpdateRecord label, RenameTable, '
+      'UpdateRecord tableId; thorough also BulkUpdateRecord, label+untieColIdFromLabel, raw section '
+      'title) x every target shape (quick: fresh, needs sanitising, collides case-insensitively, '
+      'column of another table, keyword; thorough 13 more for columns and 7 more for tables), plus '
+      'two renames in one metadata update (swap / same target); each case from the same snapshot; '
+      'thorough adds %d pairs of renames in sequence and renames after 3 kinds of formula edits '
+      '(first line inserted, formulas exchanged, edit and rename in one bundle); non-trivial = the '
+      'case rewrote at least one formula; oracle: values unchanged keyed through the rename, '
+      'formula texts == rendered templates byte for byte, fresh engine agrees, ids == reference'
+      % (nform, len(COL_ENTITIES), len(TAB_ENTITIES), len(pair_steps()))))
   n = 64 if tier == 'quick' else 256
   chunks = [cases[i::n] for i in range(n)]
   canons = set()
@@ -712,7 +814,7 @@ def run(tier, report):
   cov['states'] = len(canons) + 1
   cov['transitions'] = cov.pop('rename_bundles', 0)
   cov['traces_validated_against_impl'] = E.evaluations
-  cov['formula_columns'] = len(FORMULAS) + len(SPECIAL)
+  cov['formula_columns'] = nform
   report.assumptions.append(
       'only the reference forms of the grammar are claimed: getattr(rec, "c"), lambda parameters, '
       '**kwargs lookups and f"{$c=}" (whose value contains its own source text) are not enumerated')
